@@ -413,6 +413,27 @@ def real_stream(ctx, mods):
                 break
     except Exception as e:  # noqa: BLE001
         ctx.violation("EAS.__call__", "integer-altitudes-raise", f"{type(e).__name__}: {str(e)[:120]}", {"altDec": grid.tolist()})
+    # ---- one EAS object while the optical detector is reconfigured (a detector study re-using the object): the area, quantum
+    # efficiency and threshold in force are the ones configured when the call is made
+    cfg_r = make_cfg(nss, Detector, np.float64(525.0), 2.5, 0.2, 10.0)
+    eas_r = EAS(cfg_r)
+    kk_ = 8
+    try:
+        with dask.config.set(scheduler="synchronous"), quiet():
+            pe_a, cos_a = eas_r(beta[:kk_], np.clip(alt[:kk_], 0.5, 15.0), E[:kk_], np.zeros(kk_), np.zeros(kk_))
+            cfg_r.detector.optical.quantum_efficiency = 0.4
+            cfg_r.detector.optical.telescope_effective_area = 5.0
+            pe_b, cos_b = eas_r(beta[:kk_], np.clip(alt[:kk_], 0.5, 15.0), E[:kk_], np.zeros(kk_), np.zeros(kk_))
+            pe_f, cos_f = EAS(cfg_r)(beta[:kk_], np.clip(alt[:kk_], 0.5, 15.0), E[:kk_], np.zeros(kk_), np.zeros(kk_))
+        ctx.case(("reconfigured",), None); ctx.count("reconfigured_eas_calls")
+        if not (np.allclose(pe_b, pe_f, rtol=1e-12, atol=0) and np.allclose(cos_b, cos_f, rtol=1e-12, atol=0)):
+            k_ = int(np.argmax(np.abs(np.asarray(pe_b) - np.asarray(pe_f))))
+            ctx.violation("EAS.__call__", "pe-product-after-reconfiguration",
+                          "an EAS object re-used after the optical detector was reconfigured does not give numPEs = density x area x quantum efficiency of the configuration now in force",
+                          {"quantum_efficiency": [0.2, 0.4], "telescope_effective_area": [2.5, 5.0], "numPEs_before": float(pe_a[k_]), "numPEs_reused_object": float(pe_b[k_]),
+                           "numPEs_fresh_object": float(pe_f[k_]), "beta": float(beta[k_]), "showerEnergy": float(E[k_])})
+    except Exception as e:  # noqa: BLE001
+        ctx.notes.append(f"reconfiguration probe raised {type(e).__name__}: {str(e)[:80]}")
     # ---- metamorphic relations between the paired runs (REAL code only)
     p0, pe0, cos0, kd0, kt0 = runs["base"]
     inr = ~((alt < 0.0) | (alt > 20.0))
